@@ -4,6 +4,7 @@ mod c07;
 mod c13;
 mod c15codec;
 mod c15json;
+mod c16stub;
 mod c15stream;
 mod c16;
 mod c17;
@@ -163,6 +164,13 @@ fn main() {
                 c16::generate(&mut out, seed, scripts, len);
             } else {
                 c16::replay(&mut out, &read_scripts(&replay));
+            }
+        }
+        "c16stub" => {
+            if replay.is_empty() {
+                c16stub::generate(&mut out, seed, scripts, len);
+            } else {
+                c16stub::replay(&mut out, &read_scripts(&replay));
             }
         }
         "c17camel" => {
